@@ -115,12 +115,13 @@ def make_problem(E, var_kinds, cons_kinds, fmt="coo", jac_pattern=None, hess_pat
 
     def caller():
         f = sys._getframe(2)
-        while f is not None:
+        chain = []
+        while f is not None and len(chain) < 3:
             fn = f.f_code.co_filename
             if "/pygradflow/" in fn and not fn.endswith(("scale.py", "cons_problem.py", "eval.py")):
-                return "pygradflow/" + fn.split("/pygradflow/", 1)[1] + ":" + f.f_code.co_name
+                chain.append(fn.split("/pygradflow/", 1)[1] + ":" + f.f_code.co_name)
             f = f.f_back
-        return "?"
+        return "<".join(chain) if chain else "?"
 
     def flag(kind, v):
         if faults is None:
